@@ -208,3 +208,33 @@ def conservation_on_small_grids(K, dim, shape):
     total_new = sum(K.value(f, idx) for idx in it.product(*[range(n) for n in shape]))
     total_old = sum(K.old(f, idx) for idx in it.product(*[range(n) for n in shape]))
     K.ensures_eq("grid_sum_unchanged_by_advection_then_diffusion", total_new, total_old)
+
+
+@unit("filter_conservation_on_small_grids", props=("C04",), kernels=True,
+      configs=[dict(filter_type=ft, order=o, shape=s) for ft in ("multiplicative", "convolution")
+               for o, s in ((1, (6, 7, 6)), (2, (8, 8, 9)))],
+      desc="bounded shapes, all values: the 3-D Laplacian filter leaves the grid sum of a compactly supported field unchanged, "
+           "whatever its two captured work buffers held before the call")
+def filter_conservation_on_small_grids(K, filter_type, order, shape):
+    """'... for any ... filter setting' of C04: field supported at distance >= order + 1 from the boundary (reach of
+    `order` passes of the 3-point 1-D filter + the zeroed ring of the flux buffer); prior content of both work buffers
+    arbitrary (they are scratch arrays shared between operators)."""
+    import itertools as it
+    m = order + 1
+
+    def supp(idx):
+        return all(m <= i < n - m for i, n in zip(idx, shape))
+
+    def conc(idx):
+        return tuple(int(i) if not hasattr(i, "const_value") else int(i.const_value()) for i in idx)
+
+    flux_buf, field_buf = K.field("filter_flux_buffer", shape), K.field("field_buffer", shape)
+    k = K.gen("gen_laplacian_filter_kernel_3d", filter_order=order, filter_flux_buffer=flux_buf,
+              field_buffer=field_buf, field_type="scalar", filter_type=filter_type)
+    f0 = K.field("seed", shape)
+    f = K.field("scalar_field", shape, init=lambda idx: K.old(f0, idx) if supp(conc(idx)) else 0)
+    K.havoc(flux_buf)
+    K.havoc(field_buf)
+    K.run(k, scalar_field=f)
+    cells = list(it.product(*[range(n) for n in shape]))
+    K.ensures_eq("grid_sum_unchanged_by_filter", sum(K.value(f, idx) for idx in cells), sum(K.old(f, idx) for idx in cells))
